@@ -89,6 +89,10 @@ def campaign_c16(seed, tier):
     for i in range(24 if tier == "quick" else 3000):
         nkeys = rng.choice([3, 17, 24, 24])
         keys = [(rng.randrange(1, nkeys + 1), rng.choice([1, 1, 2])) for _ in range(40)]
+        if i % 3 == 2:
+            # session keys are whatever the real-source field held: broadcast, zero, group addresses, look-alikes,
+            # generations at the ends of their range
+            keys += [(65536 + rng.randrange(8), rng.choice([0, 1, 0xFFFF])) for _ in range(14)] + [(0, 0), (1, 0), (1, 0xFFFF), (0xFFFF, 1)]
         lines = ["NEW"]
         for _ in range(200):
             x = rng.random()
